@@ -53,7 +53,7 @@ PGuard(mb) ==
   ELSE IF mb.wit.kind \in {"fewer", "more"} THEN "count"
   ELSE IF mb.wit.kind = "degree" THEN "degree"
   ELSE IF \E j \in 1..mb.m : ~(mb.n >= 64) /\ ~U64Lt(mb.vals[j], U64Pow2(mb.n)) THEN "range"
-  ELSE IF mb.wit.kind \in {"blind", "value", "swap", "shift"} THEN "opening"
+  ELSE IF mb.wit.kind \in {"blind", "value", "swap", "shift", "ragmore", "ragnone"} THEN "opening"
   ELSE IF \E j \in 1..mb.m : mb.proms[j] # None /\ ~U64CheckedSubOk(mb.vals[j], mb.proms[j]) THEN "promise"
   ELSE "ok"
 
